@@ -56,4 +56,138 @@ theorem f9_old_wrong_cut : subByDisplayOld [0xff, 0x61, 0x62] 2 = some [0xff, 0x
 example : subByDisplay [0xff, 0xff, 0xff, 0xff, 0xff] 4 = some [0xff, 0xff] := by decide
 example : subByDisplay [0xff, 0x61, 0x62] 2 = some [0xff] := by decide
 
+/-! ## Finding F15: `Mask` — `l - start - end` wraps around in `int`
+
+    l := utf8.RuneCountInString(str)
+    ml := l - start - end
+    if ml <= 0 { return str }
+    if utf8.RuneCountInString(mask) == 1 { mask = strings.Repeat(mask, ml) }
+    if ml == l { return mask }
+    end = l - end
+    …
+
+For non-negative arguments with `start + end > 2^63 + l` the 64-bit subtraction wraps to a
+positive `ml`: `Mask("abc", "*", MaxInt64, 5)` calls `strings.Repeat("*", MaxInt64)` (panic:
+`makeslice: len out of range`), `Mask("abc", "*", MaxInt64, MaxInt64)` returns `"*****"`.
+The repair `if start > l || end > l { return str }` keeps every intermediate value in
+`[-l, l]`.  Below: the pre-fix code with 64-bit arithmetic and its refutation, and the
+repaired code with 64-bit arithmetic together with the proof that it never wraps, i.e. that
+it is the model `Golib.C17.mask` (which computes in unbounded `Int`). -/
+
+/-- Two's-complement `int64` result of an exact integer `x`. -/
+def wrap64 (x : Int) : Int := (x + 9223372036854775808) % 18446744073709551616 - 9223372036854775808
+
+theorem wrap64_id (x : Int) (h1 : -9223372036854775808 ≤ x) (h2 : x < 9223372036854775808) :
+    wrap64 x = x := by
+  unfold wrap64; omega
+
+/-- `strings.Repeat(m, n)`, `n ≥ 0`: `none` when the result cannot exist (`len(m)*n` beyond
+`maxAlloc = 2^48` bytes: "Repeat output length overflow" / "makeslice: len out of range"). -/
+def repeatOld (m : List Nat) (n : Nat) : Option (List Nat) :=
+  if m.length * n > 281474976710656 then none else some (repeatStr m n)
+
+/-- The pre-fix `Mask`, every `int` operation wrapped to 64 bits. -/
+def maskOld64 (str msk : List Nat) (start end_ : Int) : Option (List Nat) :=
+  let l : Int := runeCount str
+  let ml := wrap64 (wrap64 (l - start) - end_)
+  if ml ≤ 0 then some str
+  else
+    match (if runeCount msk = 1 then repeatOld msk ml.toNat else some msk) with
+    | none => none
+    | some msk =>
+    if ml = l then some msk
+    else
+      let end_ := wrap64 (l - end_)
+      match maskLoop str start end_ (str.length + 1) 0 0 0 0 with
+      | none => none
+      | some (si, ei) =>
+        let ei := if ei = 0 then str.length else ei
+        match sliceTo str si, sliceFrom str ei with
+        | some a, some b => some (a ++ msk ++ b)
+        | _, _ => none
+
+/-- The repaired `Mask`, every `int` operation wrapped to 64 bits. -/
+def mask64 (str msk : List Nat) (start end_ : Int) : Option (List Nat) :=
+  let l : Int := runeCount str
+  if start > l ∨ end_ > l then some str
+  else
+  let ml := wrap64 (wrap64 (l - start) - end_)
+  if ml ≤ 0 then some str
+  else
+    let msk := if runeCount msk = 1 then repeatStr msk ml.toNat else msk
+    if ml = l then some msk
+    else
+      let end_ := wrap64 (l - end_)
+      match maskLoop str start end_ (str.length + 1) 0 0 0 0 with
+      | none => none
+      | some (si, ei) =>
+        let ei := if ei = 0 then str.length else ei
+        match sliceTo str si, sliceFrom str ei with
+        | some a, some b => some (a ++ msk ++ b)
+        | _, _ => none
+
+def maxInt64 : Int := 9223372036854775807
+
+/-- F15 witness 1: `Mask("abc", "*", MaxInt64, 5)`: the wrapped `ml` is `MaxInt64` … -/
+theorem f15_ml_wraps : wrap64 (wrap64 (3 - maxInt64) - 5) = maxInt64 := by decide
+
+/-- … so `strings.Repeat("*", MaxInt64)` is called and the function panics. -/
+theorem f15_old_mask_panics : maskOld64 [97, 98, 99] [42] maxInt64 5 = none := by decide
+
+/-- F15 witness 2: `Mask("abc", "*", MaxInt64, MaxInt64)` returns `"*****"`, not `"abc"`. -/
+theorem f15_old_mask_wrong :
+    maskOld64 [97, 98, 99] [42] maxInt64 maxInt64 = some [42, 42, 42, 42, 42] := by decide
+
+/-- The pre-fix algorithm is not total on non-negative `int` arguments. -/
+theorem f15_old_not_total :
+    ¬ ∀ (s m : List Nat) (a b : Int), 0 ≤ a → a ≤ maxInt64 → 0 ≤ b → b ≤ maxInt64 →
+      maskOld64 s m a b ≠ none :=
+  fun h => h _ _ _ _ (by decide) (by decide) (by decide) (by decide) f15_old_mask_panics
+
+theorem go_length_le : ∀ (fuel off : Nat) (bs : List Nat), (rangeDecode.go fuel off bs).length ≤ fuel := by
+  intro fuel
+  induction fuel with
+  | zero => intro off bs; simp [rangeDecode.go]
+  | succ f ih =>
+    intro off bs
+    cases bs with
+    | nil => simp [rangeDecode.go]
+    | cons b rest =>
+      simp only [rangeDecode.go, List.length_cons]
+      have := ih (off + (if (decodeRune (b :: rest)).2 = 0 then 1 else (decodeRune (b :: rest)).2))
+        ((b :: rest).drop (if (decodeRune (b :: rest)).2 = 0 then 1 else (decodeRune (b :: rest)).2))
+      omega
+
+theorem runeCount_le_length (bs : List Nat) : runeCount bs ≤ bs.length :=
+  go_length_le bs.length 0 bs
+
+/-- The repaired `Mask` never wraps: for every string (a Go string is shorter than 2^63
+bytes) and all non-negative `int` arguments, computing with 64-bit wrap-around gives exactly
+what the model `mask` computes in unbounded integers.  So the theorems about `mask`
+(`c17_mask`, `c17_no_panic`, `c17_results_valid`) are theorems about the 64-bit code. -/
+theorem mask64_eq_mask (str msk : List Nat) (start end_ : Int)
+    (hl : (str.length : Int) ≤ maxInt64)
+    (hs : 0 ≤ start ∧ start ≤ maxInt64) (he : 0 ≤ end_ ∧ end_ ≤ maxInt64) :
+    mask64 str msk start end_ = mask str msk start end_ := by
+  have hc := runeCount_le_length str
+  unfold maxInt64 at hl hs he
+  unfold mask64 mask
+  simp only []
+  by_cases hg : start > (runeCount str : Int) ∨ end_ > (runeCount str : Int)
+  · rw [if_pos hg, if_pos hg]
+  · rw [if_neg hg, if_neg hg]
+    have h1 : wrap64 ((runeCount str : Int) - start) = (runeCount str : Int) - start :=
+      wrap64_id _ (by omega) (by omega)
+    have h2 : wrap64 ((runeCount str : Int) - start - end_) = (runeCount str : Int) - start - end_ :=
+      wrap64_id _ (by omega) (by omega)
+    have h3 : wrap64 ((runeCount str : Int) - end_) = (runeCount str : Int) - end_ :=
+      wrap64_id _ (by omega) (by omega)
+    rw [h1, h2, h3]
+    rfl
+
+/-- The repaired model on the F15 witnesses. -/
+example : mask [97, 98, 99] [42] maxInt64 5 = some [97, 98, 99] := by decide
+example : mask [97, 98, 99] [42] maxInt64 maxInt64 = some [97, 98, 99] := by decide
+example : mask64 [97, 98, 99] [42] 1 1 = some [97, 42, 99] := by decide
+
 end Golib.C17.Findings
